@@ -369,14 +369,31 @@ Definition extract_real (l : list Z) : ext dec :=
   let f := scan_float l in
   if fscan_ok f && negb (dec_overflows (fscan_dec f)) then ExtOk (fscan_dec f) (fs_rest f) else ExtFail.
 
-(* `is >> x` for an int (num_get::_M_extract_int, base 10): optional sign, digits; failbit on overflow *)
-Definition extract_int (l : list Z) : ext Z :=
+(* `is >> x` for an integer type with range [lo, hi] (num_get::_M_extract_int, base 10): optional sign, digits;
+   failbit when the value is out of range *)
+Definition extract_intr (lo hi : Z) (l : list Z) : ext Z :=
   let '(neg, l1) := take_sign l in
   let '(ds, rest) := span_digits l1 in
   match ds with
   | [] => ExtFail
   | _ => let v := if neg then - digits_val ds 0 else digits_val ds 0 in
-         if (-2147483648 <=? v) && (v <=? 2147483647) then ExtOk v rest else ExtFail
+         if (lo <=? v) && (v <=? hi) then ExtOk v rest else ExtFail
+  end.
+
+Definition extract_int : list Z -> ext Z := extract_intr (-2147483648) 2147483647.            (* int *)
+Definition extract_long : list Z -> ext Z := extract_intr (-9223372036854775808) 9223372036854775807.   (* long, step_number *)
+(* size_t after the repair: a '-' anywhere in the value text is refused before the extraction (get_keyval below) *)
+Definition extract_size : list Z -> ext Z := extract_intr 0 18446744073709551615.
+
+(* size_t as pinned: the library negates modulo 2^64 ("-5" is read as 18446744073709551611) *)
+Definition extract_size_pinned (l : list Z) : ext Z :=
+  let '(neg, l1) := take_sign l in
+  let '(ds, rest) := span_digits l1 in
+  match ds with
+  | [] => ExtFail
+  | _ => let n := digits_val ds 0 in
+         if n <=? 18446744073709551615 then ExtOk (if neg then (18446744073709551616 - n) mod 18446744073709551616 else n) rest
+         else ExtFail
   end.
 
 Fixpoint span_nonspace (l : list Z) : list Z * list Z :=
@@ -568,6 +585,7 @@ Definition check_keywords (allowed : list (list Z)) (conf : list Z) (rs : list k
 (* ---------------------------------------------------------------- a generic client: flat schema *)
 
 Inductive kind := KReal | KInt | KBool | KString | KRealVec | KRealVecN (n : nat) | KBlock
+| KSize | KLong | KIntVec | KWordVec   (* size_t, long, std::vector<int>, std::vector<std::string> *)
 | KTuple (n : nat)               (* cvm::rvector (3), cvm::quaternion (4), colvarvalue of type vector (n) *)
 | KReq (k : kind).               (* the same keyword looked up with parse_required *)
 
@@ -577,7 +595,7 @@ Definition is_required (k : kind) : bool := match k with KReq _ => true | _ => f
 Inductive value :=
 | VNotGiven
 | VReal (d : dec) | VInt (z : Z) | VBool (b : bool) | VString (s : list Z)
-| VReals (l : list dec) | VBlocks (l : list (list Z)) | VTuple (l : list dec)
+| VReals (l : list dec) | VBlocks (l : list (list Z)) | VTuple (l : list dec) | VInts (l : list Z) | VWords (l : list (list Z))
 | VBad.                                           (* an error was raised for this keyword *)
 
 Record pstate := { ps_allowed : list (list Z); ps_regs : list kl_reg; ps_err : bool; ps_oof : bool;
@@ -614,6 +632,15 @@ Definition get_keyval (strict : bool) (conf : list Z) (st : pstate) (kk : list Z
         | KRealVecN n => match (if strict then vector_fixed extract_real n data
                                 else vector_fixed_lenient extract_real n data)
                          with VAccept l => (VReals l, false) | VReject => (VBad, true) end
+        | KLong => match (if strict then scalar_value extract_long data else scalar_value_lenient extract_long data)
+                   with SAccept z => (VInt z, false) | SReject => (VBad, true) end
+        | KSize => if strict && memb 45 data then (VBad, true)     (* unsigned: a minus sign is refused *)
+                   else match (if strict then scalar_value extract_size data else scalar_value_lenient extract_size_pinned data)
+                        with SAccept z => (VInt z, false) | SReject => (VBad, true) end
+        | KIntVec => match (if strict then vector_dyn extract_int data else vector_dyn_lenient extract_int data)
+                     with VAccept l => (VInts l, false) | VReject => (VBad, true) end
+        | KWordVec => match (if strict then vector_dyn extract_word data else vector_dyn_lenient extract_word data)
+                      with VAccept l => (VWords l, false) | VReject => (VBad, true) end
         | KTuple n => match (if strict then scalar_value (extract_tuple n) data else scalar_value_lenient (extract_tuple n) data)
                       with SAccept l => (VTuple l, false) | SReject => (VBad, true) end
         | KBlock => (VBad, true)
